@@ -43,8 +43,8 @@ def run(c):
     r = c.validate("TrustStoreTrace", "TrustStoreTrace.cfg", trace, timeout=2400)
     c.judge_trace(r, trace)
     if not c.replay:
-        _pki.need(r, "advanced", "notification that advanced the store")
-        _pki.need(r, "stopped", "notification stopped by a failing step")
+        _pki.need(c, r, "advanced", "notification that advanced the store")
+        _pki.need(c, r, "stopped", "notification stopped by a failing step")
     _pki.drift(c, r)
     ntr, evs, shapes = 0, 0, set()
     for t in vlib.split_traces(trace):
